@@ -298,7 +298,8 @@ func (g *gen) genUnionSet(depth int) *qset {
 		if g.c.Choose(2, "union-fragment-plus-direct") == 1 {
 			outer = g.genUnionSetInner(depth + 1)
 		}
-		outer.frags = append(outer.frags, &qfrag{on: "U", set: inner})
+		// ("... on U { }", or without naming the type: "... { }")
+		outer.frags = append(outer.frags, &qfrag{on: "U", bare: g.bareFrags && g.c.Choose(2, "fragment-without-type-condition") == 1, set: inner})
 		return outer
 	}
 	return g.genUnionSetInner(depth)
@@ -901,6 +902,8 @@ func wildQuery(c *runner.Ctx, w *world) (string, map[string]interface{}) {
 		`query Q($v: [[int64]]) { n @skip(if: $v) }`,
 		// well-formed GraphQL that thunder may or may not support
 		`{ as { ... { id } } us { ... { __typename } } ... { n } }`,
+		`{ us { ... { bogus } } u1 { ... { id } } }`,
+		`{ u1 { ... on U { bogus } } us { ... on U { ... { name } } } }`,
 		`query A { n } query B { n }`,
 		`subscription { n }`,
 		`{ as @nope(x: 1) { id @deprecated } }`,
